@@ -305,3 +305,51 @@ pub fn defaults_ok() -> Result<(), String> {
     }
     Ok(())
 }
+
+//
+// https URL through an https proxy: two TLS sessions, the outer one with the proxy (its own name),
+// the inner one with the origin (the origin's name); the flags and roots apply to both.
+//
+pub fn double_tls_cells() -> Vec<(String, String, Value)> {
+    let lab = lab();
+    let mut out = Vec::new();
+    for outer in ["proxyname", "othername", "expired", "selfsigned"] {
+        for inner in ["good", "othername", "expired", "unknownissuer"] {
+            for (aic, aih, root) in [(false, false, true), (false, true, true), (true, false, false), (false, false, false)] {
+                let _ = lab.take_log();
+                lab.proxy.set(|cfg| {
+                    cfg.outer_cert = Some(outer.to_string());
+                    cfg.inner_cert = Some(inner.to_string());
+                });
+                attohttpc::verif::set_resolution("proxy.test", Some(vec![lab.proxy.addr]));
+                let u = url::Url::parse("https://proxy.test:3129").unwrap();
+                let mut rb = attohttpc::get("https://good.test:8443/r")
+                    .proxy_settings(attohttpc::ProxySettings::builder().https_proxy(u).build())
+                    .danger_accept_invalid_certs(aic)
+                    .danger_accept_invalid_hostnames(aih)
+                    .timeout(std::time::Duration::from_secs(10));
+                if root {
+                    rb = rb.add_root_certificate(root_cert());
+                }
+                let res = crate::common::guarded(|| rb.send().and_then(|r| r.bytes()));
+                attohttpc::verif::set_resolution("proxy.test", None);
+                let ok = matches!(&res, Ok(Ok(b)) if b == b"ok");
+                // per layer: chain + validity + name (proxy.test for the outer, good.test for the inner)
+                let layer_ok = |cert: &str, name_ok: bool| -> bool {
+                    let chain = matches!(cert, "proxyname" | "good" | "othername" | "expired") && root;
+                    let valid = cert != "expired";
+                    aic || (chain && valid && (name_ok || aih))
+                };
+                let want = layer_ok(outer, outer == "proxyname") && layer_ok(inner, inner == "good" || inner == "expired" || inner == "unknownissuer");
+                let desc = format!("[{BACKEND}] https://good.test:8443 via https://proxy.test:3129; proxy presents {outer}.crt, tunnel end presents {inner}.crt; accept_invalid_certs {aic}, accept_invalid_hostnames {aih}, root added {root}");
+                let case = json!({"engine": "c14", "backend": BACKEND, "double_tls": true});
+                if ok && !want {
+                    out.push(("C14:unauthenticated-peer-accepted:HttpsProxyTunnel".to_string(), format!("{desc}: the exchange succeeded ({res:?})"), case));
+                } else if !ok && want {
+                    out.push(("C14:valid-peer-rejected:HttpsProxyTunnel".to_string(), format!("{desc}: the exchange failed ({res:?})"), case));
+                }
+            }
+        }
+    }
+    out
+}
